@@ -868,3 +868,39 @@ def rule_token_derivation_total(ctx, facts, rule):
         has = any(re.search(r"Iterator>?::map$", c) for c in calls) and any(re.search(r"Iterator>?::collect$", c) for c in calls)
         ctx.check(has and not trunc, rule, fn.path, fn.span, "a scope re-issues its token item by item (iter -> map -> collect)", "",
                   "iterator calls %s" % sorted({c.rsplit('::', 1)[1] for c in calls}), extra="scope-total")
+
+
+def rule_token_order_preserved(ctx, facts, rule):
+    """A collect token keeps its items and their order from the parents given by the program up to the submit choke
+    point: nothing filters, sorts or reorders a Vec<CollectTokenItem> except GlobalCollect::submit_spans (retain sampled)."""
+    MUT = re.compile(r"alloc::vec::Vec::<T, A>::(retain|retain_mut|sort\w*|reverse|swap|remove|swap_remove|dedup\w*|truncate|drain|insert|pop|clear|split_off|rotate_\w+)$"
+                     r"|slice::<impl \[T\]>::(sort\w*|reverse|swap|rotate_\w+)$")
+    bad = []
+    n = 0
+    for g in facts.fns.values():
+        if g.crate != "fastrace" or EXCLUDE.search(g.path):
+            continue
+        for b in g.calls():
+            t = g.term(b)
+            if g.blocks[b]["cleanup"] or not t.get("arg_tys") or "CollectTokenItem" not in t["arg_tys"][0]:
+                continue
+            if MUT.search(t["callee"]):
+                n += 1
+                root = g.j.get("root", g.path)
+                if not (root.endswith("GlobalCollect::submit_spans") and t["callee"].endswith("::retain")):
+                    bad.append((g.path, g.loc(b), t["callee"].rsplit("::", 1)[1]))
+    ctx.check(not bad and n >= 1, rule, "fastrace::util::CollectToken", "-",
+              "token items are never filtered or reordered between the program's parent list and the submit choke point "
+              "(the first item stays the first parent)", "%d mutating site(s): submit_spans' retain" % n,
+              "token mutated at %s" % bad, extra="token-order")
+
+
+def rule_extraction_never_gives_up(ctx, facts, rule):
+    """current_local_parent / from_span return None only for the stated reasons -- not because the stack is busy."""
+    for p in ("fastrace::collector::id::SpanContext::from_span", "fastrace::collector::id::SpanContext::current_local_parent"):
+        fn = facts.fn(p)
+        if fn is None:
+            continue
+        tb = fn.calls_re(r"RefCell::<T>::try_borrow(_mut)?$|Mutex::<R, T>::try_lock$", cleanup=False)
+        ctx.check(not tb, rule, p, fn.span, "%s does not give up (return None) because the span stack is momentarily borrowed" % p.rsplit("::", 1)[1],
+                  "", "try_borrow at %s: inside a property closure the extraction would silently yield None" % [fn.loc(b) for b in tb], extra="no-try-borrow")
